@@ -99,9 +99,31 @@ func mutate(rel string, orig []byte) []mutant {
 			if len(x.Args) >= 2 {
 				sites = append(sites, site{"swapargs", ci, 0})
 			}
+			if len(x.Args) == 1 {
+				sites = append(sites, site{"unwrap", ci, 0})
+			}
 			ci++
 		case *ast.ExprStmt, *ast.AssignStmt, *ast.IncDecStmt:
 			// statement deletion handled below through block lists
+		}
+		return true
+	})
+	// second batch of operators: error swallowed in a return, string literal emptied
+	rj, sj := 0, 0
+	ast.Inspect(f, func(n ast.Node) bool {
+		switch x := n.(type) {
+		case *ast.ReturnStmt:
+			for k, e := range x.Results {
+				if id, ok := e.(*ast.Ident); ok && (id.Name == "err" || strings.HasPrefix(id.Name, "Err")) {
+					sites = append(sites, site{"retnil", rj, k})
+				}
+			}
+			rj++
+		case *ast.BasicLit:
+			if x.Kind == token.STRING && len(x.Value) > 2 {
+				sites = append(sites, site{"strempty", sj, 0})
+			}
+			sj++
 		}
 		return true
 	})
@@ -121,12 +143,36 @@ func mutate(rel string, orig []byte) []mutant {
 		f, _ := parser.ParseFile(fset, rel, orig, parser.ParseComments)
 		desc := ""
 		bi, li, ii, ui, ci, si := 0, 0, 0, 0, 0, 0
+		rj, sj := 0, 0
 		done := false
+		if s.kind == "unwrap" {
+			// replace the call by its only argument, wherever it sits
+			cj := 0
+			replaceExprs(f, func(e ast.Expr) ast.Expr {
+				if c, ok := e.(*ast.CallExpr); ok {
+					if cj == s.idx && len(c.Args) == 1 && !done {
+						desc = fmt.Sprintf("%s: call replaced by its argument", fset.Position(c.Pos()))
+						done = true
+						cj++
+						return c.Args[0]
+					}
+					cj++
+				}
+				return e
+			})
+		}
 		ast.Inspect(f, func(n ast.Node) bool {
 			if done {
 				return false
 			}
 			switch x := n.(type) {
+			case *ast.ReturnStmt:
+				if s.kind == "retnil" && rj == s.idx {
+					desc = fmt.Sprintf("%s: returned error replaced by nil", fset.Position(x.Pos()))
+					x.Results[s.alt] = ast.NewIdent("nil")
+					done = true
+				}
+				rj++
 			case *ast.BinaryExpr:
 				if s.kind == "bin" && bi == s.idx {
 					alt := binSwaps[x.Op][s.alt]
@@ -136,6 +182,15 @@ func mutate(rel string, orig []byte) []mutant {
 				}
 				bi++
 			case *ast.BasicLit:
+				if s.kind == "strempty" && sj == s.idx && x.Kind == token.STRING {
+					desc = fmt.Sprintf("%s: string literal %s emptied", fset.Position(x.Pos()), x.Value)
+					x.Value = `""`
+					done = true
+					sj++
+					li++
+					return false
+				}
+				sj++
 				if s.kind == "lit" && li == s.idx && x.Kind == token.INT {
 					v, err := strconv.ParseInt(x.Value, 0, 64)
 					if err == nil {
@@ -194,6 +249,9 @@ func mutate(rel string, orig []byte) []mutant {
 		if !done || desc == "" || strings.Contains(desc, "negation removed") {
 			continue
 		}
+		if only := os.Getenv("MUTGEN_KINDS"); only != "" && !strings.Contains(","+only+",", ","+s.kind+",") {
+			continue
+		}
 		var b bytes.Buffer
 		if format.Node(&b, fset, f) != nil {
 			continue
@@ -204,4 +262,132 @@ func mutate(rel string, orig []byte) []mutant {
 		out = append(out, mutant{rel, desc, b.Bytes()})
 	}
 	return out
+}
+
+// replaceExprs applies fn to every expression slot that can hold a call (pre-order numbering of
+// calls matches ast.Inspect's, because parents are visited before their children here too).
+func replaceExprs(f *ast.File, fn func(ast.Expr) ast.Expr) {
+	var walk func(n ast.Node)
+	fix := func(e *ast.Expr) {
+		if *e != nil {
+			*e = fn(*e)
+			walk(*e)
+		}
+	}
+	walk = func(n ast.Node) {
+		switch x := n.(type) {
+		case *ast.File:
+			for _, d := range x.Decls {
+				walk(d)
+			}
+		case *ast.GenDecl:
+			for _, sp := range x.Specs {
+				if vs, ok := sp.(*ast.ValueSpec); ok {
+					for i := range vs.Values {
+						fix(&vs.Values[i])
+					}
+				}
+			}
+		case *ast.FuncDecl:
+			if x.Body != nil {
+				walk(x.Body)
+			}
+		case *ast.BlockStmt:
+			for _, st := range x.List {
+				walk(st)
+			}
+		case *ast.ExprStmt:
+			fix(&x.X)
+		case *ast.AssignStmt:
+			for i := range x.Lhs {
+				fix(&x.Lhs[i])
+			}
+			for i := range x.Rhs {
+				fix(&x.Rhs[i])
+			}
+		case *ast.ReturnStmt:
+			for i := range x.Results {
+				fix(&x.Results[i])
+			}
+		case *ast.IfStmt:
+			if x.Init != nil {
+				walk(x.Init)
+			}
+			fix(&x.Cond)
+			walk(x.Body)
+			if x.Else != nil {
+				walk(x.Else)
+			}
+		case *ast.ForStmt:
+			if x.Init != nil {
+				walk(x.Init)
+			}
+			if x.Cond != nil {
+				fix(&x.Cond)
+			}
+			if x.Post != nil {
+				walk(x.Post)
+			}
+			walk(x.Body)
+		case *ast.RangeStmt:
+			fix(&x.X)
+			walk(x.Body)
+		case *ast.SwitchStmt:
+			if x.Init != nil {
+				walk(x.Init)
+			}
+			if x.Tag != nil {
+				fix(&x.Tag)
+			}
+			walk(x.Body)
+		case *ast.CaseClause:
+			for i := range x.List {
+				fix(&x.List[i])
+			}
+			for _, st := range x.Body {
+				walk(st)
+			}
+		case *ast.DeclStmt:
+			walk(x.Decl)
+		case *ast.DeferStmt:
+			var e ast.Expr = x.Call
+			walk(e)
+		case *ast.CallExpr:
+			fix(&x.Fun)
+			for i := range x.Args {
+				fix(&x.Args[i])
+			}
+		case *ast.BinaryExpr:
+			fix(&x.X)
+			fix(&x.Y)
+		case *ast.UnaryExpr:
+			fix(&x.X)
+		case *ast.ParenExpr:
+			fix(&x.X)
+		case *ast.SelectorExpr:
+			fix(&x.X)
+		case *ast.IndexExpr:
+			fix(&x.X)
+			fix(&x.Index)
+		case *ast.SliceExpr:
+			fix(&x.X)
+			if x.Low != nil {
+				fix(&x.Low)
+			}
+			if x.High != nil {
+				fix(&x.High)
+			}
+		case *ast.StarExpr:
+			fix(&x.X)
+		case *ast.CompositeLit:
+			for i := range x.Elts {
+				fix(&x.Elts[i])
+			}
+		case *ast.KeyValueExpr:
+			fix(&x.Value)
+		case *ast.FuncLit:
+			walk(x.Body)
+		}
+	}
+	walk(f)
 }
